@@ -23,7 +23,7 @@ CHECKS = {
     ),
     "C19": dict(
         category="exploration",
-        technique="stateful model-based testing (Hypothesis RuleBasedStateMachine, harness-owned clock via os.utime) + complete enumeration of truncation lengths of cache entries + child-process tier",
+        technique="stateful model-based testing (Hypothesis RuleBasedStateMachine, harness-owned clock via os.utime) with path-identity operations (symlinked scripts / parents / cwd, re-pointed links, edits during a run) + complete enumeration of truncation lengths and of single-bit damage of valid cache entries (damage classified in a throw-away child) + child-process tier",
         text="Histories of edit/touch/run (all cache switches)/corrupt-entry operations over awkwardly named scripts and code strings in exec/single/eval mode, in process and through real xonsh child processes and imphooks; each run's stdout, exception, namespace effects and exit status must equal the uncached run of the current source; foreign-version, truncated (every length, enumerated completely for several entries), non-code, garbage, unreadable and directory entries must never be executed or fatal and must be rebuilt; cache file names must be injective over confusable path/text pairs. Four recorded defects.",
         note="Trusted: the uncached run as reference; mtime relations are set exactly with os.utime (no sleeping); child processes call xonsh.main.main() with PYTHONPATH=/repo and the rebuilt tables preloaded; chmod-000 corruption needs CAP_DAC_OVERRIDE dropped in the worker.",
         design="2/C19",
@@ -51,7 +51,7 @@ CHECKS = {
     ),
     "C03": dict(
         category="exploration",
-        technique="differential property-based testing (bare program vs generator-made explicit ![..] twin, traces compared) + grammar-aware string fuzzing of Execer.parse under a hang bound",
+        technique="differential property-based testing (bare program vs generator-made explicit ![..] twin, traces compared) + grammar-aware Hypothesis string fuzzing and coverage-guided atheris/libFuzzer campaigns (failures bucketed so the search continues) of Execer.parse under a CPU-time bound with hang confirmation",
         text="Chains of 1-4 generated command segments (words, quoted strings, $VAR, @(), $(), redirects, pipes) joined by &&, ||, and, or are embedded in generated Python contexts (top level, before/after `;`, blocks of every compound statement kind nested to depth 4 with tab/2/4/8-space indents, backslash continuations) and executed twice in fresh sessions - bare and with every segment wrapped in ![..] by the generator; recorded alias calls, stdin, redirect-target contents and the escaping exception must agree. Arbitrary strings (metacharacter-weighted text, splices/truncations/insertions on valid programs) go through Execer.parse: tree, None or SyntaxError only, within 20 s. Six recorded defects are attributed by narrow shape predicates and mostly avoided.",
         note="Trusted: the generator's explicit twin; a twin that is itself a SyntaxError is a discard; what lands on the shell's own stdout is not compared (C06/C07); the hang bound (SIGALRM, re-armed) as the meaning of 'terminates'.",
         design="2/C03",
@@ -72,21 +72,21 @@ CHECKS = {
     ),
     "C06": dict(
         category="exploration",
-        technique="property-based testing over payload x writer behaviour x pipeline x capture kind x configuration with randomized, seeded schedule perturbation through guarded hook points in xonsh's reader/proxy/pipeline threads; round-trip oracle against the bytes the writer was told to write",
+        technique="property-based testing over payload x writer behaviour x pipeline x capture kind x configuration with randomized, seeded schedule perturbation through guarded hook points in xonsh's reader/proxy/pipeline threads; round-trip oracle against the bytes the writer was told to write; second family: alias stages (callable aliases, ExecAliases) that emit a generated sequence of tagged segments through different write paths incl. inner commands, with env prefixes, captured in every view while the real fd 1/2 are observed",
         text="Payloads built from segments (UTF-8 text, LF/CRLF/CR, escape sequences, hidden spans, binary) with sizes straddling the 1024-byte reader chunk, 4096 and multiples of the 64 KiB pipe buffer are written by an external helper or alias with generated chunking, delays, linger and exit code through pipelines of 1-3 external/alias stages and captured with $(), !().out, iteration, .raw_out, .rtn and @$() under $THREAD_SUBPROCS on/off; with XONSH_XONSH_VERIF=1 each case runs under several seeded delay plans at the schedule points. raw_out must equal the payload byte for byte, text views must match under one consistent newline reading with every text segment intact, rtn must be the last stage's code, nothing may be echoed to the shell's own stdout (fd 1 captured by the harness). A failure is reported only if it reproduces in re-runs; unreproduced schedule anomalies are counted as inconclusive. One recorded defect.",
         note="Trusted: the C helpers (vemit/vcat) write exactly the payload file; schedules are sampled by delay injection, not enumerated - the OS still owns the real interleaving; alternate-screen switches are excluded (documented pass-through).",
         design="2/C06",
     ),
     "C07": dict(
         category="exploration",
-        technique="exhaustive enumeration of the documented redirect spelling table x stage kind x position x capture form x target state (seeded sample in quick, complete product in thorough) + generated redirect combinations, against a placement model written from the tutorial; metamorphic equality of spellings",
+        technique="exhaustive enumeration of the documented redirect spelling table x stage kind x position x capture form x target state (seeded sample in quick, complete product in thorough) + generated redirect combinations, and a product over alias-body stage kinds x routings x stage decorations ($VAR=v prefixes, @thread/@unthread/@error_ignore), every emission tagged, against a placement model written from the tutorial; metamorphic equality of spellings",
         text="Every stage writes stream- and stage-tagged lines; after the command each tagged line must be found exactly once and only where the operators say: target file (truncated / appended), next stage's stdin, capture value, or the harness's fd-level terminal (temp files dup2'ed onto fds 1 and 2, sys.stdout/stderr as write-through wrappers). All spellings of one operator must place identically; conflicts and malformed operators must raise XonshError/SyntaxError with nothing delivered; a missing-directory target must be an error. Failures are re-executed and reported only if they reproduce. Eight recorded defects.",
         note="Trusted: the placement model (where the docs leave a reading open - explicit redirect vs pipe, merge order, stderr of non-last stages under !() - every reading is accepted); a rejected command may have created or truncated its `>` target before the conflict was seen (tolerated and counted); read-only targets use the immutable inode flag because the harness runs as root.",
         design="2/C07",
     ),
     "C08": dict(
         category="exploration",
-        technique="stateful model-based testing (Hypothesis RuleBasedStateMachine) of file-system/$PATH mutation histories against a reference execvp search cross-checked with dash `command -v`",
+        technique="stateful model-based testing (Hypothesis RuleBasedStateMachine) of file-system/$PATH mutation histories against a reference execvp search cross-checked with dash `command -v`; a deterministic intruder performs generated file-system operations at generated points of xonsh's own directory reads (harness-owned concurrency); symlinked directories with link/.. spellings judged by the kernel",
         text="Histories of create/delete/chmod/symlink/rename/$PATH-edit/chdir operations interleaved with lookups through every view (locate_executable, SubprocSpec.build, CommandsCache.locate_binary, `in`, all_commands, real execution); after every step each view must agree with a pure-Python POSIX search that is itself cross-checked against /bin/sh. Five recorded staleness/lookup defects are tolerated only in their exact shape.",
         note="Trusted: the reference search and dash; runs as root (x-bit semantics of uid 0); same-tick mtime collisions are produced by restoring directory mtimes because this kernel advances mtime on every change.",
         design="2/C08",
@@ -100,7 +100,7 @@ CHECKS = {
     ),
     "C09": dict(
         category="exploration",
-        technique="property-based testing with resource snapshots as invariant: generated pipeline shapes x failure modes x capture forms x repetition counts, /proc-level before/after comparison; races hunted by repetition; pty workers for terminal ownership in the thorough tier",
+        technique="property-based testing with resource snapshots as invariant: generated pipeline shapes x failure modes x capture forms x repetition counts, /proc-level before/after comparison; races hunted by repetition; early-exit matrix with endless producers; stateful job-control histories (suspend / fg / bg / kill / Ctrl-C) in real interactive sessions on harness-owned ptys with a tcgetpgrp invariant",
         text="Pipelines of 1-4 stages (external ok/failing/not found/permission denied, callable alias ok/raising/writing a lot, consumer exiting early, stage never reading stdin) x capture form x redirects x $THREAD_SUBPROCS x repetition count (1, 3, 30; thorough 300) and sequences of commands run through the real Execer; after each (grace <= 2 s) the worker's open descriptors with link targets, children (zombie or running), OS-level threads, cwd, identity of sys.std*, signal handlers, XSH.env (effective values) and os.environ are compared at three strengths: immediately, steady state (N repetitions == 1 repetition) and strict after XSH.lastcmd was displaced; a self-sent SIGINT must raise KeyboardInterrupt. Seven recorded defects (three of them races found by repetition) tolerated only in their exact symptom on their shape.",
         note="Trusted: /proc as the observer; garbage collection is disabled inside a case (what gc.collect() releases is counted, not failed); shapes of open findings are thinned (counted) because each costs 2-20 s; terminal ownership is only covered by the thorough tier's pty workers; background `&` pipelines are not generated.",
         design="2/C09",
@@ -121,21 +121,21 @@ CHECKS = {
     ),
     "C12": dict(
         category="exploration",
-        technique="stateful model-based testing (Hypothesis RuleBasedStateMachine) per backend with harness-owned flusher scheduling (flusher threads held at run()/dump() entry so reads race with in-flight flushes deterministically) + pure round-trip property of the lazyjson index",
+        technique="stateful model-based testing (Hypothesis RuleBasedStateMachine) per backend with harness-owned flusher scheduling (flusher threads held at run()/dump() entry so reads race with in-flight flushes deterministically) + pure round-trip property of the lazyjson index + generated whole sessions in real child interpreters that really exit (six ways to end a session, delayed flushers), store decoded by the parent",
         text="Histories of append (any Unicode incl. astral, combining, control characters, quotes, multi-line, blanks), flush (background / at exit), wait, clear, reopen and reads (len, h[i], h[-i], slices, items(), all_items(), inps[i], on-disk decode) under buffer sizes 1-8, every $HISTCONTROL subset, ignore regex, store-stdout and save-cwd are run against the JSON and SQLite backends and a reference list with a sound tolerance for the exclusion rules; len/index consistency is checked at every point including while a flusher is held inside dump(); after flush+wait the disk equals memory. lazyjson: every node of any JSON-able object is addressed through the embedded offsets/sizes index (key, index, slice, iteration, load at every level) and must equal the original. Six recorded defects.",
         note="Trusted: the reference list and the exclusion-rule tolerance (every reading of the rules is accepted); flusher interleavings are chosen by Hypothesis at function boundaries (run/dump entry), not inside dump(); SQLite runs with PRAGMA synchronous=OFF (durability is C13); every operation is under a 10 s bound so a deadlock is a recorded failure.",
         design="2/C12",
     ),
     "C13": dict(
         category="fault_enumeration",
-        technique="fault injection with exhaustive crash-point and single-fault enumeration per generated scenario (fork + counting wrappers around file-system entry points; strace syscall-level kill injection for SQLite)",
+        technique="fault injection with exhaustive crash-point and single-fault enumeration per generated scenario (fork + counting wrappers around file-system entry points; three write-buffering models; strace syscall-level kill injection for JSON and SQLite; temp directory on a second file system)",
         text="For each generated scenario (1-4 JSON history files, locks, stale locks, corrupt member, one rewriting operation: flush, at-exit flush, delete, erasedups, GC start-up unlock, run_gc) the operation's file-system operations are counted in a reference run; then every crash point (os._exit before op k), every partial-write length class and every single failing call (ENOSPC/EIO/EACCES/EMFILE) is executed in a fresh fork and the parent checks that each history file is its complete old or complete new version and loadable. SQLite: the driver is killed by strace at sampled (quick) / all (thorough) write-class syscalls; integrity_check and row survival. Two recorded defects.",
         note="Trusted: the wrapped entry points cover every file-system call of the operation (self-check: every changed file must be explained by a wrapped op, else exit 2); power-loss reordering below rename is not modelled; scenario space is sampled, crash points per scenario are complete.",
         design="2/C13",
     ),
     "C14": dict(
         category="exploration",
-        technique="exhaustive small-scope enumeration through the real GC on real directories + Hypothesis-generated collections with symbolic boundary limits, against a model written from the property text; harness-owned clock",
+        technique="exhaustive small-scope enumeration through the real GC on real directories + Hypothesis-generated collections with symbolic boundary limits, against a model written from the property text; harness-owned clock; live sessions with the real lock protocol (real JsonHistory objects at generated life stages) next to a GC run",
         text="Every collection of <= 3 (quick) / <= 4 (thorough) history files x command counts x lock states x limits x {commands, files} x force runs through the real JsonHistoryGC / `history gc` on a scratch directory; generated collections add byte sizes, ages, corrupt members, all four units and limits placed on every suffix-sum boundary +-1; the deleted set must be an oldest-first prefix of unlocked loadable files, the kept set the largest newest suffix that fits, nothing deleted within the limit, refusal rule per both readings. SQLite: newest N rows kept. Three recorded defects tolerated only in their exact shape.",
         note="Trusted: the model; both readings of 'discard more than it keeps' are accepted in the ambiguous zone; time and boot time are replaced by fixed values inside the worker (self-checked).",
         design="2/C14",
@@ -176,7 +176,7 @@ def main():
         "setup_cmd": "sh /verif/setup.sh",
         "hooks": {
             "guard": "XONSH_XONSH_VERIF",
-            "enable": "environment variable XONSH_XONSH_VERIF=1 set by run.py (before xonsh is imported) for the checks that use schedule points (C06); xonsh is imported from /repo's working tree, nothing is built",
+            "enable": "environment variable XONSH_XONSH_VERIF=1 set by run.py (before xonsh is imported) for the checks that use schedule points (C06 in process; C12 passes it to its real-xonsh child sessions to delay the background flusher); xonsh is imported from /repo's working tree, nothing is built",
             "baseline_off_cmd": "cd /repo && env -u XONSH_XONSH_VERIF /venv/bin/python -m pytest -ra -q -p no:cacheprovider --timeout=900 --continue-on-collection-errors",
             "source_commits": ["eca866d", "17ce52d"],
             "add_only": True,
